@@ -1,34 +1,48 @@
-/- Helper lemmas for C03 (rexpy soundness). Statements mirror Props/C03.lean. -/
+/- Final assembly for C03 (rexpy soundness). Statements mirror Props/C03.lean. -/
 import TddaVerif.Model.Rexpy
 import TddaVerif.Props.C03Spec
+import TddaVerif.Lemmas.RexpyMatch
+import TddaVerif.Lemmas.RexpyVrle
+import TddaVerif.Lemmas.RexpyRefine
 
 namespace TddaVerif.Props.C03.Lemmas
 open TddaVerif.Py TddaVerif.Rexpy TddaVerif.Props.C03
 
-theorem matchCap_sound (T : CharTable) (E : List Char) (p : Pattern) (s : Line) (caps : List Line)
-    (h : matchCap T E p s = some caps) :
-    caps.flatten = s ∧ caps.length = p.length ∧
-    (∀ i, i < p.length → fragAccepts T E (p.getD i ⟨.code ' ', 0, none, false⟩) (caps.getD i []) = true) ∧
-    Matches T E p s := by
-  sorry
-
-theorem matchCap_complete (T : CharTable) (E : List Char) (p : Pattern) (s : Line)
-    (h : Matches T E p s) : (matchCap T E p s).isSome = true := by
-  sorry
-
-theorem coarse_sound (T : CharTable) (hT : Consistent T) (E : List Char) (hE : E = normExtras E) (c : Char) :
-    inCat T E (coarse T E c) c = true := by
-  sorry
-
-theorem batch_extract_sound (T : CharTable) (hT : Consistent T) (o : Opts) (cl : Cleaned) :
+theorem batch_extract_sound (T : CharTable) (hT : Consistent T) (o : Opts)
+    (hsz : 1 ≤ o.sizes.maxStringsInGroup) (cl : Cleaned) :
     ∃ ps E, batchExtract T o cl = some (ps, E) ∧
       ∀ s ∈ cl.strings, ∃ p ∈ ps, Matches T E (wrapWs (decide (cl.nStripped > 0)) p) s := by
   sorry
 
 theorem extract_sound (T : CharTable) (hT : Consistent T) (o : Opts)
+    (hsz : 1 ≤ o.sizes.maxStringsInGroup)
     (hprune : o.maxPatterns = none ∧ o.minStrings ≤ 1) (items : List (Option Line × Nat)) :
     ∃ ps E w, extract T o items = some (ps, E, w) ∧
       ∀ s ∈ keptExamples o items, ∃ p ∈ ps, Matches T E (wrapWs w p) s := by
+  sorry
+
+/-- every returned pattern comes from a signature group and matches all the (cleaned) examples of
+    that group — in particular at least one example -/
+theorem batch_pattern_has_witness (T : CharTable) (hT : Consistent T) (o : Opts)
+    (hsz : 1 ≤ o.sizes.maxStringsInGroup) (cl : Cleaned) (ps : List Pattern) (E : List Char)
+    (h : batchExtract T o cl = some (ps, E)) :
+    ∀ p ∈ ps, ∃ s ∈ cl.strings, Matches T E (wrapWs (decide (cl.nStripped > 0)) p) s := by
+  sorry
+
+/-- there are never more patterns than distinct cleaned examples, and none for no examples -/
+theorem batch_count_le (T : CharTable) (o : Opts) (cl : Cleaned) (ps : List Pattern) (E : List Char)
+    (h : batchExtract T o cl = some (ps, E)) : ps.length ≤ cl.strings.eraseDups.length := by
+  sorry
+
+/-- pruning options only delete patterns -/
+theorem extract_subset_batch (T : CharTable) (o : Opts) (items : List (Option Line × Nat))
+    (ps : List Pattern) (E : List Char) (w : Bool) (h : extract T o items = some (ps, E, w))
+    (hne : (clean o.stripOpt o.removeEmpties items).strings ≠ []) :
+    ∃ qs, batchExtract T o (clean o.stripOpt o.removeEmpties items) = some (qs, E) ∧ ∀ p ∈ ps, p ∈ qs := by
+  sorry
+
+theorem extract_empty (T : CharTable) (o : Opts) (items : List (Option Line × Nat))
+    (h : (clean o.stripOpt o.removeEmpties items).strings = []) : extract T o items = some ([], [], false) := by
   sorry
 
 end TddaVerif.Props.C03.Lemmas
